@@ -429,17 +429,45 @@ pub fn run(tier: Tier) -> BResult {
         }
     }
     *classes.entry("synthetic records".into()).or_insert(0) += syn_n;
+    // schedules (engine A): handlers of one signal running on several threads at once
+    let mut a_caps: Vec<serde_json::Value> = Vec::new();
+    let (mut a_states, mut a_trans, mut a_execs) = (0u64, 0u64, 0u64);
+    for it in crate::props::iter::scenarios_c17(tier) {
+        let name = it.run.name();
+        let cfg = crate::explore::Config { property: "C17".into(), bound: it.bound, max_wall: Duration::from_secs(if tier == Tier::Quick { 30 } else { 600 }), workers: crate::props::workers_for(it.run.nthreads()), hang_secs: 30 };
+        match crate::explore::explore(&*it.run, &cfg) {
+            Ok(sum) => {
+                eprintln!("[C17] schedules {:<48} bound={:?} execs={} states={} steps={} distinct={}{}", name, cfg.bound, sum.stats.executions, sum.stats.states, sum.stats.transitions, sum.stats.digests.len(), if sum.stats.capped { " CAPPED" } else { "" });
+                a_states += sum.stats.states;
+                a_trans += sum.stats.transitions;
+                a_execs += sum.stats.executions;
+                if sum.stats.capped {
+                    a_caps.push(json!({"scenario": name, "cap": "wall-clock"}));
+                }
+                *classes.entry(format!("schedules:{}", name)).or_insert(0) += sum.stats.executions;
+                for v in sum.violations {
+                    let cl = crate::explore::class_of(&v.message);
+                    if cl == "engine" {
+                        violations.push(BViolation { message: format!("engine: {}", v.message), case: json!({"scenario": name}) });
+                    } else if cl == "C17" || cl == "crash" || cl == "hung" || cl == "panic" || cl == "race" {
+                        violations.push(BViolation { message: format!("C17: {} [schedule replay: {}]", v.message.trim_start_matches("C17: "), v.replay), case: json!({"scenario": name, "engine": "sigsched", "choices": v.choices}) });
+                    }
+                }
+            }
+            Err(er) => violations.push(BViolation { message: format!("engine: {}", er), case: json!({"scenario": name}) }),
+        }
+    }
     BResult {
-        states: ncells as u64 + syn_n,
-        transitions: ncells as u64 * 3 + syn_n,
-        evaluations: ncells as u64 + syn_n,
+        states: ncells as u64 + syn_n + a_states,
+        transitions: ncells as u64 * 3 + syn_n + a_trans,
+        evaluations: ncells as u64 + syn_n + a_execs,
         distinct: distinct.len() as u64,
         samples,
         per_class: json!(classes),
         violations,
-        exhaustive: true,
-        caps: vec![],
-        rule: "complete grid sending mechanism (12, incl. a burst longer than the per-signal buffer: every record that comes out must be one of the deliveries) x catchable non-forbidden signal (quick: 6 representative numbers; thorough: all) with the delivery observed by the library twice and by an independent chained SA_SIGINFO reader; plus the complete synthetic grid si_signo 1..64 x si_code in [-10,10]+{0x80,MIN,MAX} with a poisoned union, and again with si_pid / si_uid in {(0,4242), (0,0), (4242,0), (1,1)} (pid 0 = sender outside the receiver's pid namespace); distinct = distinct (mechanism, raw si_code) and (cause class, process?) pairs".into(),
+        exhaustive: a_caps.is_empty(),
+        caps: a_caps,
+        rule: "schedules (engine A, deviation-bounded, real code): handlers of one signal running on three threads at once with the origin exfiltrator, every origin handed out carries the facts of a delivery; complete grid sending mechanism (12, incl. a burst longer than the per-signal buffer: every record that comes out must be one of the deliveries) x catchable non-forbidden signal (quick: 6 representative numbers; thorough: all) with the delivery observed by the library twice and by an independent chained SA_SIGINFO reader; plus the complete synthetic grid si_signo 1..64 x si_code in [-10,10]+{0x80,MIN,MAX} with a poisoned union, and again with si_pid / si_uid in {(0,4242), (0,0), (4242,0), (1,1)} (pid 0 = sender outside the receiver's pid namespace); distinct = distinct (mechanism, raw si_code) and (cause class, process?) pairs".into(),
         assumptions: vec!["the independent reader uses libc's own siginfo accessors".into(), "feature extended-siginfo (extract.c compiled with the system C compiler)".into()],
     }
 }
